@@ -221,6 +221,8 @@ class Program:
                 tree = ast.parse(src, filename=path)
             except SyntaxError as e:
                 raise AnalysisError("cannot parse %s: %s" % (rel, e))
+            from .canon import canonicalise
+            tree = canonicalise(tree)      # one spelling for equivalent comparisons / negated branches (see sa/canon.py)
             parts = rel[:-3].split(os.sep)
             is_pkg = parts[-1] == "__init__"
             if is_pkg:
